@@ -2073,6 +2073,8 @@ class Summaries:
                 if isinstance(v, CollV):
                     # a clone of a stored collection remembers where it was taken from
                     v = CollV(v.kind, v.ty, next(_c), 0, v.length, v.known, v.elem, prov=('clone', v.prov, origin_spath(s, p.path)))
+                elif isinstance(v, StructV) and v.prov is None and p.path[1] and p.path[1][-1][0] == 'e':
+                    v = StructV(v.ty, v.fields, prov=('elem-clone', p.path[0], p.path[1]))
                 return some(rty, v)
             return fork_opt(ctx, ctx.args[0], lambda s, p: none(rty), cl)
 
